@@ -20,7 +20,7 @@ LEVEL = "model_checking"
 def gen_tasks(tier, seed):
     rng = random.Random(seed + 9)
     tasks = []
-    for name, es in I.dag_graphs(tier, rng, quick_n=10, thorough_n5=80):
+    for name, es in I.dag_graphs(tier, rng, quick_n=10, thorough_n5=400):
         G = nx.DiGraph(es)
         inner = [v for v in G.nodes() if G.in_degree(v) > 0 and G.out_degree(v) > 0]
         base = {"name": name, "edges": es, "cyc": False, "starts": [], "ends": [], "ignored": [], "constraints": [], "node_mode": False}
@@ -41,7 +41,7 @@ def gen_tasks(tier, seed):
         tasks.append({**base, "constraints": [rng.choice(sps)]})
         if G.number_of_nodes() > 2:
             tasks.append({**base, "node_mode": True, "ignored": [rng.choice(list(G.nodes()))]})
-    for name, es in I.digraphs(tier, rng, quick_n=10, thorough_n=80):
+    for name, es in I.digraphs(tier, rng, quick_n=10, thorough_n=250):
         G = nx.DiGraph(es)
         inner = [v for v in G.nodes() if G.in_degree(v) > 0 and G.out_degree(v) > 0]
         base = {"name": name, "edges": es, "cyc": True, "starts": [], "ends": [], "ignored": [], "constraints": [], "node_mode": False}
